@@ -3,6 +3,8 @@ package main
 import (
 	"errors"
 	"fmt"
+	"runtime"
+	"runtime/metrics"
 	"strings"
 	"time"
 
@@ -26,6 +28,20 @@ type budgetYielder struct {
 	hook   func(n int) // called at every yield with the yield index (0-based)
 }
 
+// heapGuardBytes bounds the memory a generated program may make the evaluator allocate (a loop doubling a string
+// reaches gigabytes within a small yield budget; the harness has no other memory limit). Exceeding it counts as an
+// exhausted budget: the run is stopped and skipped, nothing is compared.
+const heapGuardBytes = 3 << 30
+
+var heapSample = []metrics.Sample{{Name: "/memory/classes/heap/objects:bytes"}}
+
+var heapGuardTripped bool
+
+func heapOver() bool {
+	metrics.Read(heapSample)
+	return heapSample[0].Value.Kind() == metrics.KindUint64 && heapSample[0].Value.Uint64() > heapGuardBytes
+}
+
 func (y *budgetYielder) Yield() {
 	if y.hook != nil {
 		y.hook(y.n)
@@ -34,28 +50,42 @@ func (y *budgetYielder) Yield() {
 	if y.budget > 0 && y.n > y.budget && y.onOver != nil {
 		y.onOver()
 	}
+	if y.n == 1 && heapGuardTripped { // first yield of the next run: the previous evaluator is garbage now
+		heapGuardTripped = false
+		runtime.GC()
+	}
+	if y.n&15 == 0 && y.onOver != nil && heapOver() {
+		heapGuardTripped = true
+		y.onOver()
+	}
 }
 
-func (p *recPlatform) eff(s string)                 { p.Trace = append(p.Trace, s) }
-func (p *recPlatform) Print(s string)               { p.Prints = append(p.Prints, s); p.eff("print:" + s) }
-func (p *recPlatform) Cls()                         { p.eff("cls") }
-func (p *recPlatform) Sleep(d time.Duration)        { p.eff(fmt.Sprintf("sleep:%d", int64(d))) }
-func (p *recPlatform) Yielder() evaluator.Yielder   { return p.yielder }
-func (p *recPlatform) Move(x, y float64)            { p.eff(fmt.Sprintf("move:%x:%x", canonBits(x), canonBits(y))) }
-func (p *recPlatform) Line(x, y float64)            { p.eff(fmt.Sprintf("line:%x:%x", canonBits(x), canonBits(y))) }
-func (p *recPlatform) Rect(x, y float64)            { p.eff(fmt.Sprintf("rect:%x:%x", canonBits(x), canonBits(y))) }
-func (p *recPlatform) Circle(r float64)             { p.eff(fmt.Sprintf("circle:%x", canonBits(r))) }
-func (p *recPlatform) Width(w float64)              { p.eff(fmt.Sprintf("width:%x", canonBits(w))) }
-func (p *recPlatform) Color(s string)               { p.eff("color:" + s) }
-func (p *recPlatform) Clear(s string)               { p.eff("clear:" + s) }
-func (p *recPlatform) Stroke(s string)              { p.eff("stroke:" + s) }
-func (p *recPlatform) Fill(s string)                { p.eff("fill:" + s) }
-func (p *recPlatform) Linecap(s string)             { p.eff("linecap:" + s) }
-func (p *recPlatform) Text(s string)                { p.eff("text:" + s) }
-func (p *recPlatform) Gridn(u float64, c string)    { p.eff(fmt.Sprintf("gridn:%x:%s", canonBits(u), c)) }
-func (p *recPlatform) Dash(segs []float64)          { p.eff(fmt.Sprintf("dash:%v", segs)) }
-func (p *recPlatform) Poly(v [][]float64)           { p.eff(fmt.Sprintf("poly:%v", v)) }
-func (p *recPlatform) Font(props map[string]any)    { p.eff(fmt.Sprintf("font:%v", props)) } // fmt prints maps sorted by key
+func (p *recPlatform) eff(s string)               { p.Trace = append(p.Trace, s) }
+func (p *recPlatform) Print(s string)             { p.Prints = append(p.Prints, s); p.eff("print:" + s) }
+func (p *recPlatform) Cls()                       { p.eff("cls") }
+func (p *recPlatform) Sleep(d time.Duration)      { p.eff(fmt.Sprintf("sleep:%d", int64(d))) }
+func (p *recPlatform) Yielder() evaluator.Yielder { return p.yielder }
+func (p *recPlatform) Move(x, y float64) {
+	p.eff(fmt.Sprintf("move:%x:%x", canonBits(x), canonBits(y)))
+}
+func (p *recPlatform) Line(x, y float64) {
+	p.eff(fmt.Sprintf("line:%x:%x", canonBits(x), canonBits(y)))
+}
+func (p *recPlatform) Rect(x, y float64) {
+	p.eff(fmt.Sprintf("rect:%x:%x", canonBits(x), canonBits(y)))
+}
+func (p *recPlatform) Circle(r float64)          { p.eff(fmt.Sprintf("circle:%x", canonBits(r))) }
+func (p *recPlatform) Width(w float64)           { p.eff(fmt.Sprintf("width:%x", canonBits(w))) }
+func (p *recPlatform) Color(s string)            { p.eff("color:" + s) }
+func (p *recPlatform) Clear(s string)            { p.eff("clear:" + s) }
+func (p *recPlatform) Stroke(s string)           { p.eff("stroke:" + s) }
+func (p *recPlatform) Fill(s string)             { p.eff("fill:" + s) }
+func (p *recPlatform) Linecap(s string)          { p.eff("linecap:" + s) }
+func (p *recPlatform) Text(s string)             { p.eff("text:" + s) }
+func (p *recPlatform) Gridn(u float64, c string) { p.eff(fmt.Sprintf("gridn:%x:%s", canonBits(u), c)) }
+func (p *recPlatform) Dash(segs []float64)       { p.eff(fmt.Sprintf("dash:%v", segs)) }
+func (p *recPlatform) Poly(v [][]float64)        { p.eff(fmt.Sprintf("poly:%v", v)) }
+func (p *recPlatform) Font(props map[string]any) { p.eff(fmt.Sprintf("font:%v", props)) } // fmt prints maps sorted by key
 func (p *recPlatform) Ellipse(x, y, rx, ry, rot, sa, ea float64) {
 	p.eff(fmt.Sprintf("ellipse:%x:%x:%x:%x:%x:%x:%x", canonBits(x), canonBits(y), canonBits(rx), canonBits(ry), canonBits(rot), canonBits(sa), canonBits(ea)))
 }
@@ -72,15 +102,15 @@ func (p *recPlatform) Read() string {
 
 // RunOutcome is the classified result of running a program on the real code.
 type RunOutcome struct {
-	ParseErr  string   // non-empty: rejected by parser.Parse
-	Class     string   // ok | panic:<sentinel> | exit:<n> | test | stopped | internal | gopanic | budget
-	ErrText   string
-	Prints    []string
-	Trace     []string
-	Yields    int
-	GoPanic   string
-	Eval      *evaluator.Evaluator
-	Prog      *parser.Program
+	ParseErr string // non-empty: rejected by parser.Parse
+	Class    string // ok | panic:<sentinel> | exit:<n> | test | stopped | internal | gopanic | budget
+	ErrText  string
+	Prints   []string
+	Trace    []string
+	Yields   int
+	GoPanic  string
+	Eval     *evaluator.Evaluator
+	Prog     *parser.Program
 }
 
 var sentinels = []struct {
@@ -129,11 +159,11 @@ func classifyErr(err error) string {
 }
 
 type RunOpts struct {
-	Input      []string
-	YieldBudget int          // 0 = default 2_000_000
-	YieldHook  func(n int, e *evaluator.Evaluator)
-	FailFast   bool
-	NoSummary  bool
+	Input       []string
+	YieldBudget int // 0 = default 2_000_000
+	YieldHook   func(n int, e *evaluator.Evaluator)
+	FailFast    bool
+	NoSummary   bool
 }
 
 // RunEvy parses and evaluates src on the real implementation with a recording
